@@ -55,6 +55,20 @@ CLAIMS = {
         "technique": "TLA+ VE machine + definitional MAPSet, TLC-enumerated cases replayed on the code",
         "design_ref": "6/C03",
     },
+    "C15": {
+        "text": ("Edit histories are an explicit state machine (spec/ModelEdit.tla for BayesianNetwork with CPD contents as exact rationals; "
+                 "spec/GraphEdit.tla for DynamicBayesianNetwork, JunctionTree and MarkovNetwork): every public editing call is an action with "
+                 "precondition, effect and frame condition; calls outside the precondition are rejected and change nothing. TLC checks by BFS "
+                 "over the abstract state graph: acyclicity (BN, 2-slice DBN), forest property (JT), rejected-unchanged, frame (only the target "
+                 "object changes), copy-equality, and that remove_node/do keep every CPD a normalised conditional over exactly its graph "
+                 "parents. All depth-2 behaviours and sampled depth-9/10 behaviours (with 2-3 live objects incl. copies, valid and invalid "
+                 "arguments, check_model and marginal queries interleaved) are replayed on the real classes comparing the projection of EVERY "
+                 "live object (nodes, edges, latents, CPDs by named assignment / factor bag) after every step."),
+        "note": ("3 node tokens, palette of 8 CPDs, <=3 live objects; range(card) state names; multi-element calls exercised with one-element lists; "
+                 "DBN CPD edits and DAG construction beyond BN are not modelled; DBN.copy()'s own precondition (all variables in all present slices) is modelled as the code has it."),
+        "technique": "TLA+ edit-history state machines model-checked with TLC; generated behaviours replayed on the code with full-state comparison",
+        "design_ref": "6/C15",
+    },
 }
 
 NOT_APPLICABLE = {}
